@@ -350,6 +350,7 @@ pub fn main(args: &[String]) -> i32 {
                 replays: arg(args, "--replays").unwrap_or("/verif/replays").to_string(),
                 threads: arg(args, "--threads").and_then(|s| s.parse().ok()).unwrap_or(16),
                 scale: arg(args, "--scale").and_then(|s| s.parse().ok()).unwrap_or(1.0),
+                child: args.iter().any(|a| a == "--child"),
             };
             if let Some(spec) = crate::check::comp_spec_of(&prop) {
                 return crate::check::run_comp_check(&a, spec);
